@@ -195,7 +195,7 @@ K("LM.line_merge", ["C03", "C09"], LINE, "check_line_merge", "Line::merge / can_
 K("C14.line_merge_circle", ["C14", "C01"], LINE, "check_line_merge_circle", "Line::merge_circle",
   "never panics; Some(marker line: kind by filled/radius, marked end = centre, far end kept) iff radius <= 0.75 and an end within 0.75*threshold",
   timeout=600, assumes=["Line::angle_rad stubbed by any f32"])
-K("N4.line_bounds", ["C12"], LINE, "check_line_bounds", "Line::bounds", "per-axis min / max of the end points")
+K("N4.line_bounds", ["C12", "C10", "C16"], LINE, "check_line_bounds", "Line::bounds", "per-axis min / max of the end points")
 
 ARC = "buffer/fragment_buffer/fragment/arc.rs"
 CIRCLE = "buffer/fragment_buffer/fragment/circle.rs"
@@ -209,12 +209,12 @@ K("C05.arc_touching", ["C05", "C12"], ARC, "check_arc_touching", "Arc::is_touchi
 K("C11.circle_scale", ["C11"], CIRCLE, "check_circle_scale", "Circle::scale", "centre and radius = IEEE product with s; is_filled unchanged")
 K("C06.circle_absolute_position", ["C06", "C13"], CIRCLE, "check_circle_absolute_position", "Circle::absolute_position / new",
   "centre translated exactly; radius, fill unchanged")
-K("N4.circle_bounds", ["C12"], CIRCLE, "check_circle_bounds", "Circle::bounds", "centre -/+ radius")
+K("N4.circle_bounds", ["C12", "C10", "C16"], CIRCLE, "check_circle_bounds", "Circle::bounds", "centre -/+ radius")
 K("C11.rect_scale", ["C11"], RECT, "check_rect_scale", "Rect::scale", "corners and Some(radius) = IEEE product with s; None stays None; flags unchanged")
 K("L1.rect_ctors", ["C05"], RECT, "check_rect_ctors", "Rect::new / rounded_new / sort_reorder_end_points / width / height / is_rounded",
   "same two corners ordered; radius as given; flags kept")
 K("C06.rect_absolute_position", ["C06"], RECT, "check_rect_absolute_position", "Rect::absolute_position", "corners translated exactly; rest unchanged")
-K("N4.rect_bounds", ["C12"], RECT, "check_rect_bounds", "Rect::bounds", "box of the corners")
+K("N4.rect_bounds", ["C12", "C10", "C16"], RECT, "check_rect_bounds", "Rect::bounds", "box of the corners")
 
 MLINE = "buffer/fragment_buffer/fragment/marker_line.rs"
 POLY = "buffer/fragment_buffer/fragment/polygon.rs"
@@ -406,7 +406,7 @@ B("T6.string_and_cell_buffer", ["C04", "C17", "C10"], CB, "bounded_string_and_ce
   "first row: all strings of <= 4 (thorough 5) tokens over {a, e-acute, wide CJK, space, -, TAB} x 3 second rows x {LF, CRLF} x 4 trailing-blank variants")
 
 K("C15.celltext_fragment_dispatch", ["C15", "C03", "C04", "C11"], FRAG, "check_fragment_celltext_dispatch",
-  "Fragment::scale / absolute_position / merge / is_contacting / is_broken on a CellText fragment",
+  "Fragment::scale / FragmentSpan::scale / absolute_position / merge / is_contacting / is_broken on a CellText fragment",
   "a text fragment never becomes or joins geometry: scale gives a Text with the same content anchored at q*s; absolute_position moves the cell; "
   "merge with a line, circle, arc or rect is None in both orders; it contacts no geometric fragment",
   kind="bounded", bound="content fixed to \"é-\" (drawing character inside the text); cells, scale and the geometric fragments symbolic", timeout=300)
@@ -518,9 +518,9 @@ S("C01.panic_site_inventory", ["C01"], "panic_sites", "every unwrap / expect / p
 
 B("RB.boxes", ["C05", "C03", "C01"], END, "bounded_boxes",
   "Span::endorse / Contacts::endorse_rects / endorse_rect / endorse_rounded_rect / is_rounded_rect / right_angle_arcs + the tables of + - ~ | : . , ' `",
-  "a drawn box (sharp or rounded corners, '-' or '~' edges, '|' sides with an optional ':' stretch, optional interior text) is exactly one rect with the drawn "
-  "position, size, rounding and dashing, anywhere; with a stub line attached it is not a rect",
-  "3 corner styles x 2 edge styles x widths 0..9 x heights 0..5 (thorough 0..60 x 0..30) x 3 offsets x {plain, interior text, ':' stretch in the middle / first / last row of the sides, stub attached} "
+  "a drawn box (sharp, rounded or wide-rounded corners; each edge '-' or '~'; '|' sides with an optional ':' stretch on either or both sides; optional interior text) "
+  "is exactly one rect with the drawn position and size, radius = the radius of its drawn corner arcs, dashed iff any edge or side is; with a stub attached it is not a rect",
+  "4 corner styles x 4 top/bottom edge combinations x widths 0..7 x heights 0..4 (thorough 0..60 x 0..30) x 3 offsets x {plain, interior text, ':' stretch left / right / both / first row / last row, stub attached} "
   "(tables behind once_cell::Lazy; 8 symbolic fragments through is_rounded_rect exceed Kani)", timeout=900, timeout_thorough=7200)
 
 B("C01.lazy_tables_init", ["C01", "C13"], CM, "bounded_lazy_tables_init", "every once_cell::Lazy table of map/*.rs",
@@ -601,3 +601,7 @@ V("T3.celltext_merge_unbounded", ["C04", "C03"], "celltext", "merge", "CellText:
 V("G2.endorse_rects_count", ["C05", "C04", "C03"], "endorse_rects", "endorse_rects", "Contacts::endorse_rects",
   "for any number of groups: accepted.len() + rejects.len() == contacts.len() (every group is either endorsed or kept)",
   "buffer/cell_buffer/contacts.rs")
+
+K("S1.contains_point_one_cell", ["C09", "C03"], LINE, "check_contains_point_one_cell", "Line::contains_point (parry2d Segment::contains_point)",
+  "for every segment and point on the 5 x 5 lattice of one cell at the origin: true <=> the point lies on the closed segment (exact integer arithmetic)",
+  kind="bounded", bound="the 25 lattice points of the cell at the origin (symbolic); other positions: S1.is_touching_lattice", kmod="k10", timeout=900, heavy=True)
